@@ -432,16 +432,25 @@ class SyncRpcClient(RpcClient):
         b_pdu = self._prepare_pdu(pdu, encrypt_offsets)
         self._sock.sendall(b_pdu)
 
-        header = self._sock.recv(16)
+        header = bytearray(16)
+        self._recv_exactly(memoryview(header))
         resp_header = PDUHeader.unpack(header)
 
         resp = bytearray(resp_header.frag_len)
         view = memoryview(resp)
         view[:16] = header
-        view = view[16:]
-
-        while view:
-            read = self._sock.recv_into(view)
-            view = view[read:]
+        self._recv_exactly(view[16:])
 
         return self._process_response(resp, resp_header, resp_type, encrypt_offsets)
+
+    def _recv_exactly(
+        self,
+        view: memoryview,
+    ) -> None:
+        """Fills the view with data from the socket, fails if the peer closed the connection."""
+        while view:
+            read = self._sock.recv_into(view)
+            if not read:
+                raise EOFError("RPC connection was closed before the full PDU was received")
+
+            view = view[read:]
